@@ -262,6 +262,25 @@ pub async fn run_conn_tls(
                     }
                 }
             }
+            Step::AwaitRaw { n, max_ms } => {
+                let deadline = tokio::time::Instant::now() + ms(*max_ms);
+                loop {
+                    {
+                        let mut g = shared.lock().unwrap();
+                        if g.obs.raw.len() as u64 >= *n || g.done_reading {
+                            break;
+                        }
+                        if tokio::time::Instant::now() >= deadline {
+                            g.obs.raw_waits_timed_out += 1;
+                            break;
+                        }
+                    }
+                    tokio::select! {
+                        _ = notify.notified() => {}
+                        _ = tokio::time::sleep_until(deadline) => {}
+                    }
+                }
+            }
             Step::AwaitRespBytes { n, max_ms } => {
                 let deadline = tokio::time::Instant::now() + ms(*max_ms);
                 loop {
